@@ -1121,6 +1121,17 @@ class Engine(object):
                     else:
                         outs.append((s2, self.abstract_call(e, [sv], s2, "any(filter(...)) over a non-constant collection")))
             return outs
+        if (
+            isinstance(f, ast.Name) and f.id == "all" and len(e.args) == 1 and not e.keywords
+            and isinstance(e.args[0], ast.Call) and isinstance(e.args[0].func, ast.Name) and e.args[0].func.id == "filter"
+            and len(e.args[0].args) == 2 and ast.unparse(e.args[0].args[0]) in ("str.isalpha", "str.isdigit", "str.isalnum", "str.isidentifier", "str.isspace", "str.isdecimal", "str.isnumeric")
+        ):
+            # idiom: all(filter(str.isX, xs)) -- the kept strings satisfy isX, hence are non-empty, hence truthy: always True
+            outs = []
+            for s, _xs in self.eval(e.args[0].args[1], st):
+                self.assumptions.add("stdlib idiom spec: all(filter(str.isX, xs)) is True for every xs (a string for which isX holds is non-empty, i.e. truthy)")
+                outs.append((s, VBool(True)))
+            return outs
         # ---- the deque(map(f, xs), maxlen=0) idiom is handled at statement level
         for s, fv in self.eval(f, st):
             return self.call_value(fv, e, s)
